@@ -564,7 +564,13 @@ func (x *Exec) execUnOp(st *State, in *ssa.UnOp) {
 		if v.K == VFloat {
 			x.setReg(in, &Val{K: VFloat, Typ: in.Type(), F: []*Val{v.F[0], scalar(mk("-", SReal, v.F[1].T), nil)}})
 		} else {
-			x.setReg(in, scalar(tArith("-", intLit(0), v.T), in.Type()))
+			// negation is exact except at the minimum of a 64-bit signed type, where it wraps to itself (-MinInt64 == MinInt64)
+			neg := x.arith(st, "-", intLit(0), v.T, in.Type(), in.Pos())
+			if b, ok := types.Unalias(in.Type()).Underlying().(*types.Basic); ok && (b.Kind() == types.Int64 || b.Kind() == types.Int) && !x.overflow {
+				lo := intLitStr("-9223372036854775808")
+				neg = scalar(tIte(tEq(v.T, lo), lo, neg.T), in.Type())
+			}
+			x.setReg(in, neg)
 		}
 	case token.ARROW:
 		x.noteDropped("channel receive")
